@@ -327,6 +327,11 @@ def run(prop, seed, budget, ctx):
                 if bad:
                     failures.append({"kind": "P", "part": "one-sided", "features": ["definitions"], "py": f"OS{i}", "returns": rt, "version": ver, "real": ds,
                                      "why": ["keyword-outside-the-target-vocabulary:" + ",".join(sorted(bad))], "k_ok": None})
+    if prop == "C18":
+        import corners7
+        cf_, cn_, cd_, ch_ = corners7.run_part("C18", seed, budget)
+        failures += cf_; evaluations += cn_; distinct |= cd_
+        for k_, v_ in ch_.items(): hist[k_] += v_
     if prop in ("C06", "C07"):
         import rec_conv
         rf, rn, rd, rh = rec_conv.run_part(prop, seed, budget)
